@@ -81,6 +81,16 @@ impl<'ast, 's> Visit<'ast> for Body<'s> {
                     "params": pats, "escapes": esc.0, "paren_end": r(e.paren_token.span.close()).1}));
             }
         }
+        if e.args.len() == 1 && !matches!(e.args.first(), Some(syn::Expr::Closure(_))) {
+            let m = e.method.to_string();
+            if m == "any" || m == "all" || m == "find" || m == "rposition" {
+                let a = e.args.first().unwrap();
+                let empty: Vec<Value> = vec![];
+                self.combinators.push(json!({"method": m, "span": rj(e.span()), "recv": rj(e.receiver.span()),
+                    "closure": rj(a.span()), "body": rj(a.span()), "params": empty, "escapes": false,
+                    "paren_end": r(e.paren_token.span.close()).1, "not_closure": true}));
+            }
+        }
         syn::visit::visit_expr_method_call(self, e);
     }
     fn visit_macro(&mut self, m: &'ast syn::Macro) {
